@@ -111,7 +111,13 @@ func NewToUnicodeFile(csr charcode.CodeSpaceRange, data map[charcode.Code]string
 }
 
 func (tu *ToUnicodeFile) GetMapping() (map[charcode.Code]string, error) {
-	codec, err := charcode.NewCodec(tu.CodeSpaceRange)
+	// the code space of a usecmap chain is the union of the code spaces of
+	// its files, as in [File.Codec]
+	var cs charcode.CodeSpaceRange
+	for f := tu; f != nil; f = f.Parent {
+		cs = append(cs, f.CodeSpaceRange...)
+	}
+	codec, err := charcode.NewCodec(cs)
 	if err != nil {
 		return nil, err
 	}
